@@ -26,6 +26,13 @@ def _call_args(row):
     raise MachineryError(kind)
 
 
+def _r(x):
+    try:
+        return repr(x)
+    except Exception as e:          # a malformed key may not even print
+        return f"<unprintable {type(x).__name__}: {type(e).__name__}>"
+
+
 def _try(f, args):
     try:
         return f(*args), None
@@ -60,15 +67,19 @@ def main(ctx, replay=None):
         sig = {"fn": "c_", "kind": row["kind"]}
         if row["rejected"]:
             if exc is None:
-                ctx.violation(f"c_{args} accepted as {got!r}; the index algebra rejects it", {**case, "got": repr(got)}, sig)
+                ctx.violation(f"c_{args} accepted as {_r(got)}; the index algebra rejects it", {**case, "got": _r(got)}, sig)
             continue
         if exc is not None:
             ctx.violation(f"c_{args} raised {exc!r}; expected key {row['voigt']}", {**case, "exc": repr(exc)}, sig)
             continue
         exp_calc = getattr(CT, row["calc"])
-        obs = {"voigt": list(got.voigt), "v": list(got.v), "standard": list(got.standard), "s": list(got.s),
-               "mult": got.multiplicity, "calc": got.calc_type.name if got.calc_type else None,
-               "long": bool(got.is_longitudinal), "offd": bool(got.is_off_diagonal), "shear": bool(got.is_shear)}
+        try:
+            obs = {"voigt": list(got.voigt), "v": list(got.v), "standard": list(got.standard), "s": list(got.s),
+                   "mult": got.multiplicity, "calc": got.calc_type.name if got.calc_type else None,
+                   "long": bool(got.is_longitudinal), "offd": bool(got.is_off_diagonal), "shear": bool(got.is_shear)}
+        except Exception as ex:
+            ctx.violation(f"c_{args}: reading the views of the accepted key raised {ex!r}", case, sig)
+            continue
         exp = {"voigt": row["voigt"], "v": row["voigt"], "standard": row["standard"], "s": row["standard"],
                "mult": row["mult"], "calc": exp_calc.name, "long": row["long"], "offd": row["offd"], "shear": row["shear"]}
         if obs != exp:
@@ -78,7 +89,7 @@ def main(ctx, replay=None):
         # the views round-trip through the constructors
         for back in (U.c_(*got.voigt), U.c_(*got.standard)):
             if back != got or hash(back) != hash(got):
-                ctx.violation(f"c_{args}: views do not round-trip ({got!r} -> {back!r})", case, sig)
+                ctx.violation(f"c_{args}: views do not round-trip ({_r(got)} -> {_r(back)})", case, sig)
         accepted.append((tuple(row["voigt"]), got, args))
     ctx.sample({"call": "c_(1,3,2,1)", "expected_voigt": [5, 6]})
 
@@ -110,12 +121,16 @@ def main(ctx, replay=None):
         sig = {"fn": "e_", "kind": row["kind"]}
         if row["rejected"]:
             if exc is None:
-                ctx.violation(f"e_{args} accepted as {got!r}; must be rejected", {**case, "got": repr(got)}, sig)
+                ctx.violation(f"e_{args} accepted as {_r(got)}; must be rejected", {**case, "got": _r(got)}, sig)
             continue
         if exc is not None:
             ctx.violation(f"e_{args} raised {exc!r}; expected Voigt index {row['voigt']}", {**case, "exc": repr(exc)}, sig)
             continue
-        obs = {"voigt": got.voigt, "v": got.v, "standard": list(got.standard), "s": list(got.s)}
+        try:
+            obs = {"voigt": got.voigt, "v": got.v, "standard": list(got.standard), "s": list(got.s)}
+        except Exception as ex:
+            ctx.violation(f"e_{args}: reading the views of the accepted key raised {ex!r}", case, sig)
+            continue
         exp = {"voigt": row["voigt"], "v": row["voigt"], "standard": row["standard"], "s": row["standard"]}
         if obs != exp:
             ctx.violation(f"e_{args}: observed {obs} expected {exp}", {**case, "observed": obs, "expected": exp}, sig)
